@@ -152,9 +152,10 @@ def build_get_flow_weights(runner: ModelBackend):
 
     if len(mvars):
         tv_keys = list(m.graph.filter(sources=mvars).dag)
-        tv_flow_map = {
-            k: m._flow_key_map[k] for k in set(m._flow_key_map).intersection(set(tv_keys))
-        }
+        # Iterate in the (deterministic) order of _flow_key_map rather than over a set of strings,
+        # whose order depends on the interpreter's hash seed and changes the traced program
+        tv_key_set = set(tv_keys)
+        tv_flow_map = {k: v for k, v in m._flow_key_map.items() if k in tv_key_set}
     else:
         tv_flow_map = {}
 
@@ -559,7 +560,9 @@ def build_run_model(
     else:
         tv_keys = []
 
-    static_flow_map = {k: m._flow_key_map[k] for k in set(m._flow_key_map).difference(set(tv_keys))}
+    # Deterministic order (see build_get_flow_weights)
+    tv_key_set = set(tv_keys)
+    static_flow_map = {k: v for k, v in m._flow_key_map.items() if k not in tv_key_set}
 
     model_times = jnp.array(m.times)
 
